@@ -94,10 +94,21 @@ def gen_case(seed, idx, exh_k=None):
             if rnd.random() < .1:
                 ops.append(("freeze",))
     ops.append(("asmap",))
+    if rnd2.random() < .35:
+        ops.append(("asmap",))           # asking again gives the same answer (the same map, or the same refusal)
     if rnd.random() < .3:
         ops.append(("add", nreg, "late", 8, None))
         nreg += 1
     return {"aw": aw, "dw": dw, "gran": gran, "ops": ops, "nreg": nreg, "seed": seed, "idx": idx}
+
+
+class EqReg(csr.Register):
+    """a value-like register class: instances with the same width compare and hash equal"""
+    def __eq__(self, other):
+        return isinstance(other, EqReg) and other.element.width == self.element.width
+
+    def __hash__(self):
+        return hash(("EqReg", self.element.width))
 
 
 def clog2(n):
@@ -111,6 +122,7 @@ def run_impl(case):
     lines, obs, fails = [f"case {aw} {dw} {gran}"], [], []
     stats = {"ops": 0, "refused": 0, "explicit": 0, "implicit_after_explicit": 0, "scoped": 0, "asmap_refused": 0, "regs_placed": 0}
     unwind_rnd = lib.rng_for(case.get("seed", 0), case.get("idx", 0), 1718)
+    eq_rnd = lib.rng_for(case.get("seed", 0), case.get("idx", 0), 1738)
     stack = []          # entered context managers (None for refused scopes)
     scope = []
     accepted = []       # (rid, name tuple, width, offset) in insertion order — the oracle's view
@@ -125,7 +137,7 @@ def run_impl(case):
         if k == "add":
             _, rid, nm, w, off = op
             if rid not in regs:
-                regs[rid] = csr.Register(csr.Field(csr.action.RW, w), access="rw")
+                regs[rid] = (EqReg if eq_rnd.random() < 0.15 else csr.Register)(csr.Field(csr.action.RW, w), access="rw")
                 widths[rid] = w
             lines.append(f"add {rid} {nm} {widths[rid]} {'-' if off is None else off}")
             try:
